@@ -67,7 +67,7 @@ def streamModel (s : Bytes) (bufLen : Nat) : String :=
       if s.length - 2 < h.datLen then s!"{St.INVALID_FORMAT} {s.length} -" else
       s!"0 {2 + h.datLen} {toHex (s.drop (2 + h.datLen))}"
 
-def handle (inp : String) (out : String) : String :=
+partial def handle (inp : String) (out : String) : String :=
   let iw := match words inp with
     | "sstream" :: r => "stream" :: r
     | x => x
@@ -98,6 +98,25 @@ def handle (inp : String) (out : String) : String :=
       let m := serialize t' 70000
       verdict s!"reraw:{clsOf m}" (showRes m) out (serOracle t' 70000 ow)
     | _, _ => "skip bad-reraw-args"
+  | ["serd", tr] =>
+    match parseTree tr with
+    | some t =>
+      let m := serializeDefault t
+      let spec := (serOracle t (4 + 0x10000) (ow.take 2)).orElse fun _ =>
+        match ow.getD 2 "C?" with
+        | c => if ow.headD "?" == "0" && c != "C0:1" then some s!"the-clone-does-not-serialize-like-the-element-{c}"
+               else if ow.headD "?" != "0" && (match m with | .ok _ => true | .error _ => false) then some s!"an-encodable-element-is-refused-with-{ow.headD "?"}" else none
+      verdict s!"serd:{clsOf m}" (showRes m) (" ".intercalate (ow.take 2)) spec
+    | none => "skip bad-serd-args"
+  | ["elserp", tr, room] =>
+    match parseTree tr, room.toNat? with
+    | some t, some r =>
+      let m := elSer t r false
+      let spec : Option String := match ow with
+        | st :: hx :: _ => if st == "0" && hx != toHex (payload t) then some "payload-written-is-not-the-format-payload" else none
+        | _ => none
+      verdict s!"elserp:{clsOf m}" (showRes m) out spec
+    | _, _ => "skip bad-elserp-args"
   | ["elser", tr, room] =>
     match parseTree tr, room.toNat? with
     | some t, some r =>
@@ -221,8 +240,44 @@ def handle (inp : String) (out : String) : String :=
             else if ob != want then some "serialization-after-remove-differs-from-format" else none
           | _, _ => some "accepted-untileable-parent"
         | _, _ => none
-      verdict s!"elremove:{(ms.splitOn " ").head!}" ms out spec
+      let tTok := (ow.find? (·.startsWith "T")).getD "T-"
+      let out0 := " ".intercalate (ow.filter (fun w => !w.startsWith "T"))
+      let spec := spec.orElse fun _ => if tTok != "T-" && tTok != "T0:1" then some s!"after-detach-the-element-serializes-differently-{tTok}" else none
+      verdict s!"elremove:{(ms.splitOn " ").head!}" ms out0 spec
     | _, _ => "skip bad-elremove-args"
+  | ["elset2", hx, tag1, tag2, vhx] =>
+    match ofHex hx, tag1.toNat?, tag2.toNat?, ofHex vhx with
+    | some b, some t1, some t2, some v =>
+      let child : Tlv := .raw t2 false false v
+      let ms := match memRead b with
+        | .error e => s!"PARSE-FAILED-{e}"
+        | .ok h =>
+          match expand ((b.drop h.hdrLen).take h.datLen) with
+          | .error e => s!"NOMID-{e}"
+          | .ok cs =>
+            match cs.filter (·.tag == t1) with
+            | [.raw _ mnc mfwd mp] =>
+              (match expand mp with
+              | .error e => s!"{e} - -"
+              | .ok cs2 =>
+                let k := (cs2.filter (·.tag == t2)).length
+                if k > 1 then s!"{St.INVALID_STATE} - -"
+                else
+                  let cs2' := if k == 0 then cs2 ++ [child] else cs2.map fun c => if c.tag == t2 then child else c
+                  let mid' : Tlv := .nested t1 mnc mfwd cs2'
+                  s!"0 {showRes (elSer (.nested h.tag h.nc h.fwd (cs.map fun c => if c.tag == t1 then mid' else c)) 70000 true)}")
+            | _ => "NOMID-0"
+      let tTok := (ow.find? (·.startsWith "T")).getD "T-"
+      let out0 := " ".intercalate (ow.filter (fun w => !w.startsWith "T"))
+      let spec : Option String := if tTok != "T-" && tTok != "T0:1" then some s!"after-detach-the-element-serializes-differently-{tTok}" else none
+      if ms.startsWith "NOMID" && out.startsWith "NOMID" then "ok elset2:nomid" else
+      verdict s!"elset2:{(ms.splitOn " ").head!}" ms out0 spec
+    | _, _, _, _ => "skip bad-elset2-args"
+  | ["elseto", hx, tag, vhx] =>
+    -- the typed setter makes a plain sub element of that tag (no flags): the same as setting the element built from it
+    match tag.toNat?, ofHex vhx with
+    | some tg, some v => handle s!"elset {hx} {toHex (encode (.raw tg false false v))}" out
+    | _, _ => "skip bad-elseto-args"
   | ["elset", hx, chx] =>
     match ofHex hx, ofHex chx with
     | some b, some cb =>
@@ -239,7 +294,10 @@ def handle (inp : String) (out : String) : String :=
             else if k == 1 then
               s!"0 {showRes (elSer (.nested h.tag h.nc h.fwd (cs.map fun c => if c.tag == ch.tag then child else c)) 70000 true)}"
             else s!"{St.INVALID_STATE} - -"
-      verdict s!"elset:{(ms.splitOn " ").head!}" ms out none
+      let tTok := (ow.find? (·.startsWith "T")).getD "T-"
+      let out0 := " ".intercalate (ow.filter (fun w => !w.startsWith "T"))
+      let spec : Option String := if tTok != "T-" && tTok != "T0:1" then some s!"after-detach-the-element-serializes-differently-{tTok}" else none
+      verdict s!"elset:{(ms.splitOn " ").head!}" ms out0 spec
     | _, _ => "skip bad-elset-args"
   | _ => s!"skip unknown-op"
 
